@@ -781,8 +781,13 @@ func (c *Conn) readRecordOrCCS(expectChangeCipherSpec bool) error {
 				}
 				continue
 			}
-			if len(data) == 0 || expectChangeCipherSpec {
+			if len(data) == 0 {
 				return c.in.setErrorLocked(c.sendAlert(alertUnexpectedMessage))
+			}
+			// 等待对端 CCS 时到达的握手记录是对端上一 flight 的重传（例如对端没有收到我方的 flight
+			// 而重发 ClientHello）：丢弃，由我方的重传定时器重发当前 flight，而不是终止握手。
+			if expectChangeCipherSpec {
+				continue
 			}
 			// 握手完成后（驻留期之外）到达的握手记录只可能是对端的重传：丢弃，
 			// 否则它们会无限累积在 handBuf 中。
